@@ -242,7 +242,7 @@ func dRel(g *G) {
 // C03 traps / C05 alias / C06 destination pre-state groups
 
 var allOps = []string{"add", "sub", "mul", "quo", "quoint", "rem", "cmp", "pow", "abs", "neg", "round", "quantize",
-	"tointx", "tointv", "ceil", "floor", "reduce", "sqrt", "cbrt", "exp", "ln", "log10"}
+	"tointx", "tointv", "ceil", "floor", "reduce", "sqrt", "cbrt", "exp", "ln", "log10", "dneg", "dabs", "dset", "dreduce"}
 
 func gTraps(op string, c Ctx, x, y Dec, q int, sets []int) GEv {
 	g := GEv{K: "g", Gk: "traps", Op: op, Ctx: c, Key: caseKey("traps", op, withTraps(c, 0), x, y, q)}
